@@ -368,9 +368,11 @@ theorem countersign_tbs_no_panic (abbr : Bool) (parent : Parent) (sp : Bytes) (e
     · rename_i m
       split
       · simp
-      · have := marshalProtected_no_panic m.h
-        cases hm : marshalProtected m.h <;> simp_all
-        split <;> simp
+      · split
+        · simp
+        · have := marshalProtected_no_panic m.h
+          cases hm : marshalProtected m.h <;> simp_all
+          split <;> simp
     · rename_i m
       split
       · simp
